@@ -43,6 +43,10 @@ func (a *AstD) sx() Sx {
 
 var namePool = []string{"a", "b", "c", "d", "e", "x1", "if", "_y", "7", "go"}
 
+// astBias >= 0: that operator is drawn six times out of ten (long runs and nestings of ONE operator, on both sides and
+// under parentheses: associativity and the handling of lists are statements about repeated operators)
+var astBias = -1
+
 func genAst(r *rand.Rand, names []string, depth int) *AstD {
 	if depth == 0 || r.Intn(4) == 0 {
 		return &AstD{Op: "var", Name: names[r.Intn(len(names))]}
@@ -59,7 +63,11 @@ func genAst(r *rand.Rand, names []string, depth int) *AstD {
 		}
 		return &AstD{Op: "uniq", Names: ns}
 	default:
-		return &AstD{Op: "bin", O: r.Intn(5), Args: []*AstD{genAst(r, names, depth-1), genAst(r, names, depth-1)}}
+		o := r.Intn(5)
+		if astBias >= 0 && r.Intn(10) < 6 {
+			o = astBias
+		}
+		return &AstD{Op: "bin", O: o, Args: []*AstD{genAst(r, names, depth-1), genAst(r, names, depth-1)}}
 	}
 }
 
@@ -74,7 +82,15 @@ func genC17(r *rand.Rand, idx int, tier string) *TextCase {
 	if tier == "thorough" {
 		depth = 1 + r.Intn(6)
 	}
+	astBias = -1
+	if r.Intn(3) == 0 {
+		astBias = r.Intn(5)
+		if depth < 3 {
+			depth = 3
+		}
+	}
 	c := &TextCase{Gen: genAst(r, names, depth)}
+	astBias = -1
 	for i := 10 + r.Intn(60); i > 0; i-- {
 		switch r.Intn(3) {
 		case 0:
